@@ -857,7 +857,7 @@ func genC18(t *rapid.T, spec *GenSpec) *Program {
 	}
 	x := C18Extra{EarlyClose: chance(t, "early", 25)}
 	tampers := []string{"junk-empty-newer", "junk-garbage-newer", "junk-header-only-newer", "truncated-copy-newer", "tear-newest", "unrelated-file", "old-named-junk"}
-	nt := pick(t, "ntamper", 35, 40, 25)
+	nt := pick(t, "ntamper", 15, 50, 35)
 	for i := 0; i < nt; i++ {
 		x.Tamper = append(x.Tamper, rapid.SampledFrom(tampers).Draw(t, "tamper"))
 	}
@@ -868,7 +868,7 @@ func genC18(t *rapid.T, spec *GenSpec) *Program {
 	x.ROCfg.KeepFiles = chance(t, "roKeepFiles", 50)
 	nro := rapid.IntRange(1, 12).Draw(t, "nro")
 	for i := 0; i < nro; i++ {
-		switch pick(t, "ro", 30, 12, 20, 10, 8, 8, 6, 6) {
+		switch pick(t, "ro", 25, 12, 30, 10, 8, 8, 4, 3) {
 		case 0:
 			x.RO = append(x.RO, Op{Kind: "read"})
 		case 1:
